@@ -1777,8 +1777,9 @@ func marshalMap(info TypeInfo, value interface{}) ([]byte, error) {
 		return nil, err
 	}
 
-	keys := rv.MapKeys()
-	for _, key := range keys {
+	// MapRange, not MapKeys and MapIndex: a NaN key is never found again
+	for entries := rv.MapRange(); entries.Next(); {
+		key := entries.Key()
 		item, err := Marshal(mapInfo.Key, key.Interface())
 		if err != nil {
 			return nil, err
@@ -1793,7 +1794,7 @@ func marshalMap(info TypeInfo, value interface{}) ([]byte, error) {
 		}
 		buf.Write(item)
 
-		item, err = Marshal(mapInfo.Elem, rv.MapIndex(key).Interface())
+		item, err = Marshal(mapInfo.Elem, entries.Value().Interface())
 		if err != nil {
 			return nil, err
 		}
